@@ -220,17 +220,31 @@ def coq_closure_of_extract(d):
     return sorted(set(fs))
 
 
+def repo_tag():
+    """'' for /repo itself; a short hash for a scratch worktree given by VERIF_REPO (mutation self-tests)."""
+    return "" if os.path.realpath(REPO) == "/repo" else "_" + hashlib.sha1(os.path.realpath(REPO).encode()).hexdigest()[:8]
+
+
 def go_build(cmd, tags="verif", race=False):
-    """Build harness/cmd/<cmd> against /repo's current working tree."""
+    """Build harness/cmd/<cmd> against the current working tree of /repo (or of VERIF_REPO)."""
     h = os.path.join(ROOT, "harness")
-    exe = os.path.join(BUILD, cmd + ("_race" if race else "") + "_trace")
+    exe = os.path.join(BUILD, cmd + repo_tag() + ("_race" if race else "") + "_trace")
     with Lock("go"):
-        try:
-            shutil.copy(os.path.join(REPO, "go.sum"), os.path.join(h, "go.sum"))
-        except OSError:
-            pass
+        modflag = ""
+        if repo_tag():
+            md = os.path.join(BUILD, "gomod" + repo_tag())
+            os.makedirs(md, exist_ok=True)
+            gm = open(os.path.join(h, "go.mod")).read().replace("=> /repo", "=> " + os.path.realpath(REPO))
+            open(os.path.join(md, "go.mod"), "w").write(gm)
+            shutil.copy(os.path.join(REPO, "go.sum"), os.path.join(md, "go.sum"))
+            modflag = "-modfile=" + os.path.join(md, "go.mod")
+        else:
+            try:
+                shutil.copy(os.path.join(REPO, "go.sum"), os.path.join(h, "go.sum"))
+            except OSError:
+                pass
         env = {"CGO_ENABLED": "1"} if race else None
-        rc, out = sh("timeout 900 go build %s -tags %s -o %s ./cmd/%s" % ("-race" if race else "", tags, exe, cmd), cwd=h, timeout=930, env=env)
+        rc, out = sh("timeout 900 go build %s %s -tags %s -o %s ./cmd/%s" % (modflag, "-race" if race else "", tags, exe, cmd), cwd=h, timeout=930, env=env)
     return rc, out, exe
 
 
@@ -263,13 +277,14 @@ class Run:
         self.assumptions = []
 
     def violation(self, replay_obj, no_input=False, tag=None):
-        os.makedirs(os.path.join(ROOT, "replays"), exist_ok=True)
+        rdir = os.path.join(ROOT, "replays") if not repo_tag() else os.path.join(BUILD, "replays" + repo_tag())
+        os.makedirs(rdir, exist_ok=True)
         name = "%s-%s-%d%s.json" % (self.prop, self.tier, self.seed, ("-" + tag) if tag else "")
-        path = os.path.join(ROOT, "replays", name)
+        path = os.path.join(rdir, name)
         k = 1
         while any(path == v[0] for v in self.violations):
             k += 1
-            path = os.path.join(ROOT, "replays", name.replace(".json", "-%d.json" % k))
+            path = os.path.join(rdir, name.replace(".json", "-%d.json" % k))
         replay_obj = dict(replay_obj)
         replay_obj.setdefault("property", self.prop)
         replay_obj.setdefault("seed", self.seed)
@@ -290,8 +305,9 @@ class Run:
             "coverage": self.cov, "assumptions": self.assumptions,
             "wall_s": round(time.time() - self.t0, 2), "violations": len(self.violations),
         }
-        os.makedirs(os.path.join(ROOT, "evidence"), exist_ok=True)
-        with open(os.path.join(ROOT, "evidence", self.prop + ".json"), "w") as f:
+        evd = os.path.join(ROOT, "evidence") if not repo_tag() else os.path.join(BUILD, "evidence" + repo_tag())
+        os.makedirs(evd, exist_ok=True)
+        with open(os.path.join(evd, self.prop + ".json"), "w") as f:
             json.dump(ev, f, indent=1)
         return 1 if self.violations else 0
 
@@ -366,7 +382,7 @@ def parse_driver_output(out):
 
 def run_pair(trace_exe, model_exe, args, tag, timeout=1800, model_args=""):
     """harness args > trace file ; model < trace file.  Returns (trace_path, harness_rc, harness_err, driver_rc, driver_out)."""
-    d = os.path.join(BUILD, "run")
+    d = os.path.join(BUILD, "run" + repo_tag())
     os.makedirs(d, exist_ok=True)
     tp = os.path.join(d, tag + ".trace")
     rc1, err = sh("%s %s" % (trace_exe, args), timeout=timeout, stdout_path=tp)
@@ -388,7 +404,7 @@ def shrink(trace_exe, model_exe, line, still_fails=None, budget=400, model_args=
     on a --replay file (observed results are recomputed by the implementation)."""
     head, ops = split_case(line)
     ops = [strip_results(o) for o in ops]
-    d = os.path.join(BUILD, "run")
+    d = os.path.join(BUILD, "run" + repo_tag())
     os.makedirs(d, exist_ok=True)
     uid = hashlib.sha1((line + str(os.getpid())).encode()).hexdigest()[:10]
     rp = os.path.join(d, "shrink-%s.case" % uid)
@@ -572,7 +588,7 @@ def std_replay(prop, cfg, path):
     if rc or rc2:
         print(out, out2)
         return 2
-    d = os.path.join(BUILD, "run"); os.makedirs(d, exist_ok=True)
+    d = os.path.join(BUILD, "run" + repo_tag()); os.makedirs(d, exist_ok=True)
     cp = os.path.join(d, prop + "-replay.case")
     head, ops = split_case(case)
     open(cp, "w").write(head + " | " + " | ".join(strip_results(o) for o in ops) + "\n")
